@@ -122,8 +122,19 @@ func analyseDeterminism(as AnalysisSpec, progs []*Program, cs *Contracts, funcs 
 						ar.Obls = append(ar.Obls, o)
 						class, ok := cs.MapRanges[site]
 						if !ok {
+							// no declaration: the loop may still be of a shape whose order provably cannot matter
+							for _, cand := range []string{"sorted-keys", "set-insert"} {
+								if okc, _ := checkMapRangeClass(fn, x, cand); okc {
+									class, ok = cand, true
+									o.Desc = "range over map: " + cand + " (shape recognised, not declared)"
+									break
+								}
+							}
+							if ok {
+								continue
+							}
 							o.Name = key + "/commutes-missing#" + fmt.Sprint(k-1)
-							o.Result, o.Why = "failed", "range over a map at "+p.Pos(x.Pos())+" has no declared justification (iteration order is random)"
+							o.Result, o.Why = "failed", "range over a map at "+p.Pos(x.Pos())+" has no declared justification and is of no recognised order-independent shape (iteration order is random)"
 							continue
 						}
 						o.Desc = "range over map: " + class
